@@ -24,6 +24,9 @@ def expected_K(name):
 def check(run):
     add_rules(run, ['ACC.pair', 'ACC.guard', 'ACC.order', 'ACC.exit', 'ACC.nocapture', 'GATE.form',
                     'GATE.dom', 'GATE.intrinsic', 'GATE.K', 'SIB.plain-valid'])
+    import fdiff
+    nf = fdiff.check(run, run.facts('full'))
+    run.floor('FDIFF', 'fractional-difference kernels (config full)', nf, 2)
     for cfg in configs(run):
         F = run.facts(cfg)
         ks = [k for k in find_kernels(F) if k.fn.file.endswith('tea-rolling/src/features.rs')]
@@ -53,7 +56,9 @@ def check(run):
         '16 remove/add kernels of features.rs every accumulator update is classified (count, '
         'power sum, linear weights, exponential) and its remove update is shown to be the exact '
         'algebraic inverse of its add update on the expiring element, under the same null '
-        'guard, with the statistic read between the two. Values and rounding are not decided.',
+        'guard, with the statistic read between the two. Fractional difference (feature fdiff): '
+        'weight generator table, weight/slice alignment on every path (LIA over slice length, '
+        'valid count and window), nulls skipped before ranking. Values and rounding are not decided.',
         ASSUME, TRUSTED,
         'instances = (kernel, accumulator) pairs and (kernel, gate) sites found from the '
         'resolved callee Vec1View::rolling_apply; non-trivial = has a guard / a result read')
